@@ -8,15 +8,17 @@ export GOFLAGS=-mod=mod GOPROXY=off GOSUMDB=off GOTOOLCHAIN=local
 W=$(mktemp -d /tmp/seedconfirm.XXXXXX); rmdir "$W"
 git -C /repo worktree add -q --detach "$W" HEAD || exit 2
 cleanup() { git -C /repo worktree remove --force "$W"; }
-DEMO=$SRC/demo${K}_test.go; PATCH=$SRC/patch${K}.diff
+DEMO=$SRC/demo${K}_test.go; PATCH=$SRC/patch${K}.diff; META=$SRC/meta${K}.json
+if [ -f "$SRC/${PID}_patch${K}.diff" ]; then DEMO=$SRC/${PID}_demo${K}_test.go; PATCH=$SRC/${PID}_patch${K}.diff; META=$SRC/${PID}_meta${K}.json; fi
+RACE=""; if [ "$PID" = "C20" ]; then RACE="-race"; fi
 cp "$DEMO" "$W/zz_seed_demo_test.go"
-if ! (cd "$W" && go test -vet=off -count=1 . >/tmp/seedconfirm.clean.log 2>&1); then echo "NOT CONFIRMED: clean tree: suite+demo do not pass"; tail -5 /tmp/seedconfirm.clean.log; cleanup; exit 1; fi
+if ! (cd "$W" && go test $RACE -vet=off -count=1 . >/tmp/seedconfirm.clean.log 2>&1); then echo "NOT CONFIRMED: clean tree: suite+demo do not pass"; tail -5 /tmp/seedconfirm.clean.log; cleanup; exit 1; fi
 rm "$W/zz_seed_demo_test.go"
 if ! git -C "$W" apply "$PATCH"; then echo "NOT CONFIRMED: patch does not apply"; cleanup; exit 1; fi
 if ! (cd "$W" && go build ./... && go test -vet=off -count=1 ./... >/tmp/seedconfirm.suite.log 2>&1); then echo "NOT CONFIRMED: patched tree: build or existing suite fails"; tail -5 /tmp/seedconfirm.suite.log; cleanup; exit 1; fi
 cp "$DEMO" "$W/zz_seed_demo_test.go"
-if (cd "$W" && go test -vet=off -count=1 . >/tmp/seedconfirm.demo.log 2>&1); then echo "NOT CONFIRMED: demo passes on the patched tree"; cleanup; exit 1; fi
+if (cd "$W" && go test $RACE -vet=off -count=1 . >/tmp/seedconfirm.demo.log 2>&1); then echo "NOT CONFIRMED: demo passes on the patched tree"; cleanup; exit 1; fi
 cleanup
 D=/verif/seeded/$NAME; mkdir -p "$D"
-cp "$PATCH" "$D/patch.diff"; cp "$DEMO" "$D/demo_test.go.txt"; cp "$SRC/meta${K}.json" "$D/agent_meta.json"
+cp "$PATCH" "$D/patch.diff"; cp "$DEMO" "$D/demo_test.go.txt"; cp "$META" "$D/agent_meta.json"
 echo "CONFIRMED $NAME"
